@@ -245,8 +245,26 @@ pub fn miri_targeted_stage(ctx: &Ctx, build_dir: &Path) -> (u64, Option<Value>, 
     if ctx.id != "C08" {
         return (0, None, None);
     }
+    // host (dev profile), 32-bit limbs (dev profile: overflow checks on) and 32-bit limbs in the release profile
+    // (overflow checks off: wrapped accumulators really reach the big-integer code)
+    let variants: [(Option<&str>, bool, &str); 3] = [(None, false, "x86_64"), (Some("i686-unknown-linux-gnu"), false, "i686"), (Some("i686-unknown-linux-gnu"), true, "i686-release")];
+    let mut reports = Vec::new();
+    for (target, release, label) in variants {
+        let (v, r, e) = miri_targeted_on(ctx, build_dir, target, release, label);
+        if let Some(r) = r {
+            reports.push(r);
+        }
+        if v > 0 || e.is_some() {
+            return (v, Some(json!(reports)), e);
+        }
+    }
+    (0, Some(json!(reports)), None)
+}
+
+fn miri_targeted_on(ctx: &Ctx, build_dir: &Path, target: Option<&str>, release: bool, label: &str) -> (u64, Option<Value>, Option<String>) {
     let count: u64 = if ctx.tier.name() == "quick" { 48 } else { 600 };
-    let file = build_dir.join(format!("c08t-{}.txt", ctx.seed));
+    let count = if target.is_some() { count / 2 } else { count };
+    let file = build_dir.join(format!("c08t-{}-{}.txt", label, ctx.seed));
     let me = std::env::current_exe().expect("current_exe");
     let st = Command::new(&me).args(["c08t-inputs", &ctx.seed.to_string(), &count.to_string(), file.to_str().unwrap()]).status();
     if !matches!(st, Ok(s) if s.success()) {
@@ -259,14 +277,21 @@ pub fn miri_targeted_stage(ctx: &Ctx, build_dir: &Path) -> (u64, Option<Value>, 
     let parts = ((lines.len() + 5) / 6).clamp(1, 12);
     let mut children = Vec::new();
     for p in 0..parts {
-        let cfile = build_dir.join(format!("c08t-{}-part{}.txt", ctx.seed, p));
+        let cfile = build_dir.join(format!("c08t-{}-{}-part{}.txt", label, ctx.seed, p));
         let text: String = lines.iter().enumerate().filter(|(i, _)| i % parts == p).map(|(_, l)| format!("{l}\n")).collect();
         if std::fs::write(&cfile, text).is_err() {
             return (0, None, Some("cannot write a targeted Miri input chunk".into()));
         }
-        let c = Command::new("cargo")
-            .current_dir(&harness)
-            .args(["+nightly", "miri", "run", "-q", "-p", "mlv", "--bin", "mlv-miri", "--", "C08T", cfile.to_str().unwrap()])
+        let mut cmd = Command::new("cargo");
+        cmd.current_dir(&harness).args(["+nightly", "miri", "run", "-q"]);
+        if release {
+            cmd.arg("--release");
+        }
+        if let Some(t) = target {
+            cmd.args(["--target", t]);
+        }
+        let c = cmd
+            .args(["-p", "mlv", "--bin", "mlv-miri", "--", "C08T", cfile.to_str().unwrap()])
             .env("MIRIFLAGS", "-Zmiri-tree-borrows -Zmiri-disable-isolation -Zmiri-no-extra-rounding-error")
             .env("CARGO_TARGET_DIR", build_dir.join("miri"))
             .env("CARGO_NET_OFFLINE", "true")
@@ -315,8 +340,8 @@ pub fn miri_targeted_stage(ctx: &Ctx, build_dir: &Path) -> (u64, Option<Value>, 
     }
     let out = Out { status: St(all_ok) };
     let last = stdout.lines().filter(|l| l.starts_with("MIRI-CASE")).last().unwrap_or("").to_string();
-    let report = json!({"engine": "Miri (tree borrows) on targeted valid inputs, stack and heap configurations", "inputs": count,
-                        "families": ["G-N x3", "G-P", "G-M", "G-G f32 at MAX_DIGITS", "G-G f64 at MAX_DIGITS", "big-bigint"],
+    let report = json!({"engine": format!("Miri (tree borrows), {label}: targeted valid inputs + crafted hostile bytes, stack and heap configurations"), "inputs": count,
+                        "families": ["G-N x3", "G-P", "G-M", "G-G f32 at MAX_DIGITS", "G-G f64 at MAX_DIGITS", "big-bigint", "G-T", "hostile: chunks wrapping to 0 mod 2^32 / 2^64", "hostile: random bytes"],
                         "wall_s": start.elapsed().as_secs_f64(), "ok": out.status.success()});
     if out.status.success() && stdout.contains("MIRI-OK C08T") {
         return (0, Some(report), None);
@@ -327,10 +352,10 @@ pub fn miri_targeted_stage(ctx: &Ctx, build_dir: &Path) -> (u64, Option<Value>, 
         let line = std::fs::read_to_string(&file).ok().and_then(|t| t.lines().nth(idx).map(|l| l.to_string())).unwrap_or_default();
         std::fs::create_dir_all(ctx.verif_dir.join("replays")).ok();
         let fp = crate::gen::mix(line.bytes().fold(0u64, |h, b| h.wrapping_mul(131).wrapping_add(b as u64)));
-        let path = ctx.verif_dir.join("replays").join(format!("C08-miri-{:016x}.json", fp));
+        let path = ctx.verif_dir.join("replays").join(format!("C08-miri-{}-{:016x}.json", label, fp));
         let detail: String = stderr.lines().filter(|l| l.contains("Undefined Behavior") || l.contains("-->")).take(6).collect::<Vec<_>>().join(" | ");
         let doc = json!({"property": "C08", "message": format!("Miri reported undefined behaviour on a valid input: {detail}"),
-                         "case": {"kind": "miri-c08t", "input_line": line, "detail": detail}});
+                         "case": {"kind": "miri-c08t", "input_line": line, "detail": detail, "target": target, "release": release}});
         let _ = std::fs::write(&path, serde_json::to_string_pretty(&doc).unwrap());
         eprintln!("miri (targeted): {detail}");
         println!("VIOLATION property=C08 replay={}", path.display());
